@@ -844,3 +844,35 @@ def _eval_icond(c, env):
         return any(_eval_icond(a, env) for a in c.args)
     v = _eval_int(c.poly, env)
     return v >= 0 if c.op == 'ge' else v == 0 if c.op == 'eq' else v != 0
+
+
+def denominators(e):
+    """distinct denominators of every division in e, each with the conjunction of ite-guards under which the
+    division is actually selected (list of (den, guard B))"""
+    out = []
+    seen = set()
+    stack = [(e, B.const(True))]
+    visited = set()
+    while stack:
+        x, g = stack.pop()
+        key = (id(x), id(g))
+        if key in visited:
+            continue
+        visited.add(key)
+        n = x.node
+        t = n[0]
+        if t == '/':
+            k = (id(n[2]), id(g))
+            if k not in seen:
+                seen.add(k)
+                out.append((n[2], g))
+            stack.append((n[1], g))
+            stack.append((n[2], g))
+        elif t == 'ite':
+            stack.append((n[1], g))
+            stack.append((n[2], g & n[1]))
+            stack.append((n[3], g & ~n[1]))
+        else:
+            for c in children(x):
+                stack.append((c, g))
+    return out
